@@ -2,6 +2,7 @@
 
 import json
 import os
+import random
 import re
 
 import fw
@@ -138,6 +139,46 @@ def expr_column_ok(ctx, parser, err, inp, what):
     return True
 
 
+def position_metamorphic(ctx, parser, text, err, start, what, rng=None):
+    """For an expression error on a logical line that is one physical line:
+    trailing-blanks-keep-column   appending blanks/tabs to that line changes nothing but the line text;
+    indent-shifts-column          putting k blanks in front of it moves the column by exactly k.
+    Not judged: degenerate statements whose expression is only blanks (`a = `, `if   :`: the pattern hands the LAST blank to
+    the expression, so its offset moves with the blanks) and, for the indentation, an expression statement whose error
+    is at its first token (parse_expression reports the start of the text it was given: column 1 whatever the indent)."""
+    if err['error'] not in ('Syntax error', 'Unmatched parenthesis') or err['lineNumber'] is None:
+        return True
+    phys = re.split(r'\r?\n', text)
+    pix = err['lineNumber'] - start
+    if not 0 <= pix < len(phys) or phys[pix] != err['line']:
+        return True                    # continued line (or something check_error reports)
+    line = err['line']
+    region = expr_region(line)
+    if region is None or not region[1].strip():
+        return True
+    ok = True
+    k = rng.randint(1, 3) if rng is not None else 2
+    blanks = ''.join((rng.choice(' \t') if rng is not None else ' ') for _ in range(k))
+    inp = {'text': text, 'start': start}
+    # (a) trailing blanks
+    what2, res2 = parse_outcome(parser, '\n'.join(phys[:pix] + [line + blanks] + phys[pix + 1:]), start)
+    want = {'error': err['error'], 'line': line + blanks, 'column': err['column'], 'lineNumber': err['lineNumber']}
+    got = {f: res2.get(f) for f in want} if what2 == 'err' else {'outcome': what2}
+    if got != want:
+        ctx.witness('trailing-blanks-keep-column', dict(inp, appended=blanks), want, got, what=what)
+        ok = False
+    # (b) indentation
+    indent = len(line) - len(line.lstrip())
+    if not (region[0] == 0 and err['column'] <= indent + 1):
+        what3, res3 = parse_outcome(parser, '\n'.join(phys[:pix] + [' ' * k + line] + phys[pix + 1:]), start)
+        want = {'error': err['error'], 'line': ' ' * k + line, 'column': err['column'] + k, 'lineNumber': err['lineNumber']}
+        got = {f: res3.get(f) for f in want} if what3 == 'err' else {'outcome': what3}
+        if got != want:
+            ctx.witness('indent-shifts-column', dict(inp, indent=k), want, got, what=what)
+            ok = False
+    return ok
+
+
 def check_error(ctx, parser, text, err, start, what):
     """Oracles on one reported error. Returns True if fine."""
     ok = True
@@ -220,7 +261,8 @@ def line_without_effect(parser, text, model, only=None):
 
 
 def gen_texts(ctx):
-    """(kind, text) cases: corpus, token soup, mutated valid programs, deleted closers, dangling continuation, long lines, deep nesting."""
+    """(kind, text) cases: corpus, token soup, mutated valid programs, deleted closers, dangling continuation, lone backslash,
+    long lines, deep nesting."""
     rng = ctx.rng('texts')
     for text in load_corpus():
         yield 'corpus', text
@@ -271,6 +313,12 @@ def gen_texts(ctx):
         yield 'deep', '\n'.join(opens + ['x = 1'] + ['endif'] * (depth - 1))
         yield 'deep', '\n'.join(opens + ['x = 1'] + ['endif'] * depth)
         yield 'deep', 'x = ' + '(' * depth + '1' + ')' * (depth - 1)
+    # the last logical line is a lone backslash (an empty continued line): must be 'Unterminated line continuation'
+    for _ in range(ctx.scale(20, 200)):
+        head = [rng.choice(['a = 1', 'fn(a)', 'if a:', 'endif', '# c', '', 'b = a + \\', 'lbl:']) for _ in range(rng.randint(0, 3))]
+        lone = ''.join(rng.choice(' \t') for _ in range(rng.randint(0, 3))) + '\\' + ''.join(rng.choice(' \t') for _ in range(rng.randint(0, 3)))
+        tail = [rng.choice(['', '# c', '   ', '\t#\\']) for _ in range(rng.randint(0, 3))]
+        yield 'lone-backslash', '\n'.join(head + [lone] + tail)
     # backslash runs
     for k in range(1, ctx.scale(4, 9)):
         yield 'backslash', 'a = 1 + ' + '\\' * k + '\n  2'
@@ -297,6 +345,7 @@ def streams(ctx):
             continue
         if what == 'err':
             check_error(ctx, parser, text, res, 1, kind)
+            position_metamorphic(ctx, parser, text, res, 1, kind, rng)
         else:
             # no open block / dangling continuation accepted, no logical line silently dropped
             ll = logical_lines(text)
@@ -373,6 +422,12 @@ def replay(witness):
     probe = fw.Ctx('C06', 'quick', 0)
     if what == 'host':
         return True
+    if witness['oracle'] in ('trailing-blanks-keep-column', 'indent-shifts-column'):
+        if what != 'err':
+            return False
+        for seed in range(8):
+            position_metamorphic(probe, parser, inp['text'], res, inp.get('start', 1), 'replay', random.Random(seed))
+        return any(w.get('oracle') == witness['oracle'] for w in probe.witnesses)
     if witness['oracle'] == 'every-line-has-an-effect':
         return what == 'ok' and line_without_effect(parser, inp['text'], res, only=inp.get('line')) is not None
     if what == 'err':
